@@ -435,6 +435,39 @@ def stream_patterns(ctx, drv, rng):
         exp.append(py_parse(path))
         paths.append(("parse", path))
         if got.startswith("ok"):
+            # the three readings of "family" / "managed" agree: regex oracle of the harness, Lean Spec
+            toks_p = template_tokens(path)
+            segs_p = _split_segments(toks_p)
+            root_p, ext_p = _file_ext_split(segs_p[-1])
+            head = [t for sg in segs_p[:-1] for t in sg + [("lit", "/")]]
+            for _ in range(2):
+                x, y = rng.choice(DECOR), rng.choice(DECOR)
+                k = rng.below(6)
+                if k == 0:
+                    name = instantiate(rng, toks_p)
+                elif k == 1:
+                    name = instantiate(rng, toks_p) + "." + y
+                elif k == 2:
+                    name = instantiate(rng, head + root_p) + "." + x + instantiate(rng, ext_p)
+                elif k == 3:
+                    name = instantiate(rng, head + root_p) + "." + x + instantiate(rng, ext_p) + "." + y
+                elif k == 4:
+                    name = instantiate(rng, toks_p, ".") + rng.choice(["", ".", "x"])
+                else:
+                    name = instantiate(rng, toks_p, "T")
+                    if name:
+                        i_ = rng.below(len(name))
+                        name = name[:i_] + rng.choice(["a", ".", "[", "/", ""]) + name[i_ + 1:]
+                if "//" in name or name.endswith("/") or not path or path.endswith("/") or "//" in path \
+                        or any(c in (".", "..") for c in name.split("/")):
+                    continue
+                info_p = family_info(path)
+                lines.append("fam %s %s" % (enc(path), enc(name)))
+                exp.append("1" if in_family(info_p, name) else "0")
+                paths.append(("family", (path, name)))
+                lines.append("mgd %s %s" % (enc(path), enc(name)))
+                exp.append("1" if is_managed(info_p, name) else "0")
+                paths.append(("managed", (path, name)))
             ctx.stat("templates_ok")
             want = "ok " + " ".join(enc(p) for p in expected_patterns(path))
             if want != got:
@@ -449,9 +482,13 @@ def stream_patterns(ctx, drv, rng):
     if out is None:
         return
     for (kind, path), e, o in zip(paths, exp, out):
-        ctx.case((kind, path), nontrivial=e.startswith("ok") and any(c in path for c in "[]*?{."))
+        ctx.case((kind, path), nontrivial=(e == "1") if kind in ("family", "managed") else
+                 (e.startswith("ok") and any(c in path for c in "[]*?{.")))
         if e != o:
-            if kind == "parse":
+            if kind in ("family", "managed"):
+                ctx.broke("correspondence Retention.Spec.%s vs the harness's regex oracle" % ("familyB" if kind == "family" else "managedB"),
+                          "path %r name %r: harness %s, Lean %s" % (path[0], path[1], e, o))
+            elif kind == "parse":
                 ctx.broke("correspondence FormatterParse vs string.Formatter().parse", "%r: python %s model %s" % (path, e, o))
             else:
                 ctx.broke("correspondence makeGlobPatterns", "%r: impl %s model %s" % (path, e, o))
@@ -1027,6 +1064,19 @@ def run_case(case, case_root, keep=False):
                         expect_ret = rotating or (op == "stop" and case["trigger"] == "stop")
                     problems += judge(case, info, op, before, after, expect_ret, exc, received[ncalls:], clock.t, steps, path,
                                       rot_msg=op.encode() if rotating else None)
+                    if case["policy"] == "callable" and exc is None:
+                        # what `_terminate_file` did, as far as the API shows it (model: Retention.terminate)
+                        newf = [n for n, a in after.items() if rotating and a["content"] == op.encode() and n not in before]
+                        calls_now = received[ncalls:]
+                        state.setdefault("term", []).append({
+                            "terminates": rotating or op == "stop", "rotating": rotating,
+                            "file_open": not state.get("stopped", False), "has_rotation": rotation is not None,
+                            "retention": len(calls_now), "create": bool(newf) or (rotating and any(
+                                a["content"] == op.encode() for a in after.values())),
+                            "order_observable": bool(calls_now) and bool(newf),
+                            "new_seen_by_retention": bool(calls_now) and any(n in calls_now[0][1] for n in newf)})
+                    if op == "stop":
+                        state["stopped"] = True
                     # nothing outside the log directory is touched: the targets of the symbolic links
                     for n in sorted(set(tb) | set(ta)):
                         if n not in ta:
@@ -1073,7 +1123,7 @@ def run_case(case, case_root, keep=False):
             except Exception:  # noqa
                 pass
     if "final" in state:
-        steps.append({"final": state["final"]})
+        steps.append({"final": state["final"], "term": state.get("term", [])})
     return problems, steps
 
 
@@ -1194,8 +1244,8 @@ def case_key(case):
 def stream_e2e(ctx, drv, rng, cases=None, hist=False):
     base = tempfile.mkdtemp(prefix="c10e_")
     cwd = os.getcwd()
-    pending = []
-    n = (ctx.n(150, 2500) if hist else ctx.n(450, 16000)) * (3 if getattr(ctx, "search_boost", False) else 1)
+    pending, pending_term = [], []
+    n = (ctx.n(150, 2000) if hist else ctx.n(450, 14000)) * (3 if getattr(ctx, "search_boost", False) else 1)
     try:
         os.chdir(base)
         todo = list(cases or [])
@@ -1206,7 +1256,12 @@ def stream_e2e(ctx, drv, rng, cases=None, hist=False):
             os.mkdir(root)
             replay_case = json.loads(json.dumps(case))
             probs, steps = run_case(case, root)
-            final = steps.pop()["final"] if steps and "final" in steps[-1] else {}
+            last = steps.pop() if steps and "final" in steps[-1] else {}
+            final, term_obs = last.get("final", {}), last.get("term", [])
+            for ob in term_obs:
+                if ob["terminates"]:
+                    pending_term.append((replay_case, ob, "term %d %d 1 0 %d %d" % (
+                        ob["file_open"], ob["has_rotation"], 0 if "{" in case["path"].replace("{{", "") else 1, ob["rotating"])))
             shutil.rmtree(root, ignore_errors=True)
             shutil.rmtree(os.path.abspath(root) + "_targets", ignore_errors=True)
             if probs and probs[0][0] == "skip":
@@ -1250,9 +1305,10 @@ def stream_e2e(ctx, drv, rng, cases=None, hist=False):
     finally:
         os.chdir(cwd)
         shutil.rmtree(base, ignore_errors=True)
-    out = drv.run([l for _, _, l in pending]) if pending else []
-    if out is None:
+    out_all = drv.run([l for _, _, l in pending] + [l for _, _, l in pending_term]) if pending or pending_term else []
+    if out_all is None:
         return
+    out, out_term = out_all[:len(pending)], out_all[len(pending):]
     bad = 0
     for (case, st, line), o in zip(pending, out):
         ctx.traces_validated += 1
@@ -1269,6 +1325,27 @@ def stream_e2e(ctx, drv, rng, cases=None, hist=False):
             ctx.violation("path %r, retention %s=%r: %s" % (case["path"], case["policy"], case["arg"], msg), case,
                           kind="correspondence")
     ctx.stat("hist_model_lines" if hist else "e2e_model_steps", len(pending))
+    # order of effects of _terminate_file (callable policies make the retention step observable)
+    bad = 0
+    for (case, ob, line), o in zip(pending_term, out_term):
+        acts = o.split()
+        ctx.stat("terminate_calls_compared")
+        want_ret = acts.count("retention")
+        msg = None
+        if want_ret != ob["retention"]:
+            msg = "retention ran %d times, model %d" % (ob["retention"], want_ret)
+        elif ("create" in acts) != ob["create"]:
+            msg = "new file created: %s, model %s" % (ob["create"], "create" in acts)
+        elif "retention" in acts and "create" in acts and ob["order_observable"] and \
+                (acts.index("retention") < acts.index("create")) == ob["new_seen_by_retention"]:
+            msg = "retention %s the new file existed, model order %s" % (
+                "ran when" if ob["new_seen_by_retention"] else "ran before", acts)
+        if msg is not None:
+            bad += 1
+            if bad <= 3:
+                ctx.broke("correspondence Retention.terminate (order of effects of _terminate_file)",
+                          "path %r, %s: %s" % (case["path"], line, msg))
+    ctx.stat("terminate_disagreements", bad)
 
 
 # ----------------------------------------------------------------------------- documented duration spellings
@@ -1421,8 +1498,8 @@ def _fills_of(toks, name):
 def stream_own(ctx, drv, rng):
     """`FileSink._create_path()` and `generate_rename_path` on generated templates: the name of the file the
     sink creates, and the name a rotated file is moved to, are members of the sink's family whenever the
-    fields render to non-empty text without '/' (and without '.' for the rename) - theorems
-    `created_path_in_family`, `renamed_path_in_family`; model: `instantiate`, `renameTarget` over the generated
+    fields render to non-empty text without '/' - theorems `created_path_in_family`,
+    `renamed_path_in_family_any_fields`; model: `instantiate`, `renameTarget` over the generated
     format strings."""
     from loguru._file_sink import FileSink
     import loguru._file_sink as fsmod
@@ -1482,10 +1559,12 @@ def stream_own(ctx, drv, rng):
             date, counter = inserted, None
             if want_counter and "." in inserted:
                 date, _, counter = inserted.rpartition(".")
-            if good_d:
+            if good:
                 ctx.stat("own_rename_judged")
+                if not good_d:
+                    ctx.stat("own_rename_judged_with_dots_in_fields")
                 if not in_family(info, renamed):
-                    ctx.broke("renamed_path_in_family vs generate_rename_path",
+                    ctx.broke("renamed_path_in_family_any_fields vs generate_rename_path",
                               "path %r: rotated file %r is moved to %r, which is not in the family" % (path, created, renamed))
             ftoks, fi = [], iter(fills)
             for t in toks:
@@ -1505,7 +1584,7 @@ def stream_own(ctx, drv, rng):
             ctx.broke("driver own", "%r -> %r" % (path, o))
             continue
         mc, mf, mr, mrf = dec(parts[0]), parts[1], dec(parts[2]), parts[3]
-        if mc != created or mr != renamed or (good and mf != "1") or (good_d and mrf != "1"):
+        if mc != created or mr != renamed or (good and mf != "1") or (good and mrf != "1"):
             bad += 1
             if bad <= 3:
                 ctx.broke("correspondence Retention.instantiate / renameTarget (the sink's own file names)",
